@@ -111,11 +111,9 @@ def src_text(beta: Beta, op: str, src, site=None) -> str:
     if not src["def"]:
         return ""
     e = src["e"]
-    first_hand = next((j for j, x in enumerate(e) if not x["canon"]), None)
-
     def et(j, x):
-        # only the first hand-written entry of a site carries the "changing" spelling
-        return beta.entry_text(x, site if j == first_hand else None)
+        # in a site that is re-evaluated with a changed argument every hand-written entry changes
+        return beta.entry_text(x, site)
     if op in ("eq", "le", "ge", "none"):
         return et(0, e[0])
     if op == "in":
